@@ -95,6 +95,7 @@ let () =
             | RErrorClass (t, c) -> Stdlib.Printf.sprintf "ok\t%s\tT:%s" (trace_json t) (raw_ascii c)
             | RThrownPrim (t, ty, tx) -> Stdlib.Printf.sprintf "ok\t%s\tT:throw:%s" (trace_json t) (value_str ty tx)
             | RThrownObject t -> Stdlib.Printf.sprintf "ok\t%s\tT:throw:object" (trace_json t)
+            | REarlyError -> "ok\t[]\tE:SyntaxError"
             | RFuelOut -> "fuel\t[]\t-"
             | RUnsup c -> Stdlib.Printf.sprintf "unsupported:%d\t[]\t-" (int_of_n c)
             | RBadInput -> "badinput\t[]\t-"
